@@ -72,7 +72,7 @@ def gen_trace(seed, world, tier):
     budget = R.choice([BIG, BIG, BIG, 1, 2, 7, 0])
     if routine == "pi":
         fn = "utils.power_iteration"
-        kw = {"max_iterations": budget, "return_eigenvalue": R.random() < 0.85}
+        kw = {"max_iterations": budget, "return_eigenvalue": R.choice([True, True, True, True, 1, False])}
         if R.random() < 0.2:
             kw["tol"] = R.choice([1e-8, 1e-12, 0.0])
         if R.random() < 0.12:
